@@ -5,7 +5,7 @@
 From Coq Require Import List ZArith.
 From Coq.Strings Require Import Byte.
 From GI Require Import Lib.Bytes Gen.CacheConsts Cache.CacheEntry Cache.Cache Cache.CacheSeqFacts
-  Cache.CacheFault Cache.CacheFaultFacts Cache.CacheConc Cache.CacheConcFacts Cache.CacheReent Cache.CacheReentFacts.
+  Cache.CacheFault Cache.CacheFaultFacts Cache.CacheConc Cache.CacheConcFacts Cache.CacheReent Cache.CacheReentFacts Cache.CacheReentConcFacts.
 Import ListNotations.
 
 (* for all clients, all call lists (Puts of PS, lookups), all schedules, all torn views *)
@@ -107,3 +107,24 @@ Theorem C11_put_from_positioned_source : forall (H : bytes -> bytes) id cut s tm
   call_prog H (CPutR id (reader_of_memsrc s cut) tm) = call_prog H (CPut id (cut (ms_data s)) tm).
 Proof. exact call_put_positioned. Qed.
 Print Assumptions C11_put_from_positioned_source.
+
+(* a call made by the SOURCE READER of a Put while that Put is in progress (Cache/CacheReent.v: before
+   the n-th write to the output file, or in the hash pass before the first operation) is a run of the
+   interleaved semantics above: two clients, the Put and the inner call, under a schedule with untorn
+   views that ends with both finished, the same files and the same two results.  Every theorem of
+   this file therefore covers lookups (and Puts) issued from inside a Put. *)
+Theorem C11_call_inside_put_is_a_schedule : forall (H : bytes -> bytes) id chunks tm c n fs fs' r b,
+  put_cb H id chunks tm c (CbWrite n) fs = (fs', r, Some b) ->
+  exists sched, untorn sched /\
+    let st := run_conc H sched ([start H [CPut id chunks tm]; start H [c]], init_sys fs) in
+    finished (fst st) = true /\ sfiles (snd st) = fs' /\ map results (fst st) = [[XPut r]; [b]].
+Proof. exact put_cb_is_a_schedule. Qed.
+Print Assumptions C11_call_inside_put_is_a_schedule.
+
+Theorem C11_call_before_put_is_a_schedule : forall (H : bytes -> bytes) id chunks tm c fs fs' r b,
+  put_cb H id chunks tm c CbBefore fs = (fs', r, Some b) ->
+  exists sched, untorn sched /\
+    let st := run_conc H sched ([start H [CPut id chunks tm]; start H [c]], init_sys fs) in
+    finished (fst st) = true /\ sfiles (snd st) = fs' /\ map results (fst st) = [[XPut r]; [b]].
+Proof. exact put_cb_before_is_a_schedule. Qed.
+Print Assumptions C11_call_before_put_is_a_schedule.
